@@ -762,6 +762,8 @@ class Interp:
                     return be.isalpha(base, gz)
                 if meth == "isdigit" and not args:
                     return be.isdigit(base, gz)
+                if meth == "count" and len(args) == 1 and isinstance(args[0], str) and len(args[0]) == 1:
+                    return z3.Sum(*[z3.If(z3.And(i < base.n, base.at(i) == ord(args[0])), 1, 0) for i in range(N)])
             elif self.is_str(base):
                 if meth == "endswith" and len(args) == 1:
                     return be.endswith(base, self.lift_str(args[0]))
